@@ -4,3 +4,4 @@ import FlatModel.Props.C11
 #print axioms FC.C11.only_equal
 #print axioms FC.C11.last_tracks
 #print axioms FC.C11.adjacent
+#print axioms FC.C11.last_after_history
